@@ -5,7 +5,7 @@
    status 201 are accepted only after that write succeeded, and Location must be that id. *)
 From Coq Require Import String List Bool Arith.
 From Verif Require Import Base.ListX Base.Json Base.Free Pub.Events Pub.Calls Pub.Value Pub.Util Pub.SideEffect Pub.Soc Pub.BaseActor Pub.Monitors.
-From Verif Require Import Proofs.OrderProofs.
+From Verif Require Import Proofs.OrderProofs Proofs.NormalizeProofs.
 Import ListNotations.
 Open Scope string_scope.
 Open Scope list_scope.
@@ -54,9 +54,36 @@ Example C05_example :
     [JStr "https://x.example/2"; JStr "https://x.example/1"; JStr "https://x.example/old"].
 Proof. vm_compute. reflexivity. Qed.
 
+(* ---- normalisation of a client's Create (normalizeRecipients): for EVERY order in which Go visits its maps (perm: any
+   function that keeps the members of a list), every activity and every number of embedded objects - each of the five
+   addressing properties of the activity ends as the union over activity and objects, and each object keeps its own
+   recipients and gains the activity's.  flat_addr: the addressing values are not arrays nested in arrays. ---- *)
+Theorem C05_normalisation : forall perm, (forall l x, In x (perm l) <-> In x l) ->
+  forall a m a', a = JObj m -> flat_addr a -> Forall flat_addr (elems0 "object" a) ->
+  normalize_recipients perm a = Ok a' ->
+  forall p, In p addressing ->
+  exists A n, ids_of p a = Ok A /\ ids_of p a' = Ok n /\
+    (forall x, In x n <-> In x A \/ exists e o, In e (elems0 "object" a) /\ ids_of p e = Ok o /\ In x o) /\
+    Forall2 (fun e e' => exists o n', ids_of p e = Ok o /\ ids_of p e' = Ok n' /\ forall x, In x n' <-> In x o \/ In x A)
+            (elems0 "object" a) (elems0 "object" a').
+Proof. exact normalisation_unions. Qed.
+
+Definition ex_create : json :=
+  JObj [("type", JStr "Create"); ("actor", JStr "https://example.com/users/alice"); ("to", JStr "https://remote.example/users/carol");
+        ("object", JArr [JObj [("type", JStr "Note"); ("content", JStr "one"); ("bcc", JStr "https://remote.example/users/dave"); ("to", JArr []); ("bto", JArr []); ("cc", JArr []); ("audience", JArr [])];
+                         JObj [("type", JStr "Note"); ("content", JStr "two"); ("to", JStr "https://remote.example/users/erin"); ("bto", JArr []); ("cc", JArr []); ("bcc", JArr []); ("audience", JArr [])]])].
+Example C05_normalisation_not_vacuous :
+  match normalize_recipients (fun l => l) ex_create with
+  | Ok a' => ids_of "to" a' = Ok ["https://remote.example/users/carol"; "https://remote.example/users/erin"] /\
+             ids_of "bcc" a' = Ok ["https://remote.example/users/dave"]
+  | _ => False
+  end.
+Proof. vm_compute. split; reflexivity. Qed.
+
 Print Assumptions C05_post_outbox.
 Print Assumptions C05_send.
 Print Assumptions C05_once.
 Print Assumptions C05_deliver_after_store.
 Print Assumptions C05_front.
 Print Assumptions C05_history.
+Print Assumptions C05_normalisation.
